@@ -29,8 +29,9 @@ THEOREM_NOTES = ("coq/Props/C17.v: affine invariance of span, basis functions an
                  "point evaluation is the same code, derivative agreement is only tied by the oracle (partial)")
 LEVEL_TEXT = ("General theorems for the numeric configuration axes (knot range, span function) and for the logic of pools and caches. "
               "Partial: real process scheduling and the real lru_cache are outside the model (order-preserving map / bounded table); "
-              "evaluator variants agree on points by construction, their derivative algorithms (A3.2 vs A3.4, A3.6 vs A3.8) are compared "
-              "by the exact cross-configuration oracle only.  The correspondence runs every configuration value against geomdl, "
+              "evaluator variants agree on points by construction, and their derivative algorithms agree for ALL degrees and orders (A3.4 = A3.2 as lists, "
+              "A3.8 = A3.6 on the entries k + l <= order it fills; round 2, Proofs/DerivsAgreeGeneral*.v), hence tangents and normals do not depend "
+              "on the evaluator.  The correspondence runs every configuration value against geomdl, "
               "GEOMDL_CACHE_SIZE in fresh subprocesses and num_procs in {1,2,4,8} with real process pools.")
 LEVEL_NOTE = "configuration independence = cross-configuration equality up to 1e-9 on every sampled query + general theorems on the model"
 TECHNIQUE = "Coq proofs (induction on the A2.2 scan, loop invariant of the binary search with fuel, list lemmas) + cross-configuration oracles"
